@@ -50,6 +50,10 @@ def cases(tier):
     for x in range(3):
         for y in range(4):
             yield {"k": "lattice", "x": x, "y": y}
+    # version components with two and three digits (a version is a triple of numbers, not a string of digits)
+    far = [(1, 1, 11), (1, 1, 10), (0, 12, 1), (1, 2, 10), (1, 2, 11), (1, 12, 1), (11, 2, 1), (10, 2, 1), (1, 10, 0), (1, 2, 101), (12, 1, 0), (1, 21, 0)]
+    for i in range(0, len(far), 3):
+        yield {"k": "lattice", "vers": [list(v) for v in far[i:i + 3]]}
     yield {"k": "modes"}
     for cfg in ("alone", "ro-opened-first", "rw-opened-first", "rw-opened-later"):
         yield {"k": "ro-shared", "cfg": cfg}
@@ -80,6 +84,10 @@ def tamper(path, ver, idv, fmt):
             h.attrs["id"] = ""
         elif idv == "malformed":
             h.attrs["id"] = "not-a-uuid"
+        elif idv == "valid-plus-suffix":
+            h.attrs["id"] = VALID_ID + "-copy"
+        elif idv == "two-ids-glued":
+            h.attrs["id"] = VALID_ID + VALID_ID
         else:
             h.attrs["id"] = VALID_ID
         if fmt == "missing":
@@ -106,19 +114,26 @@ def expected(ver, mode, idv, fmt):
 
 
 def run_lattice(case, r):
-    x, y = case["x"], case["y"]
     base = env.fresh_path("c11base_")
     make_base(base)
     work = env.fresh_path("c11w_")
+    if "vers" in case:
+        vers = [tuple(v) for v in case["vers"]]
+        idvs = ("valid", "empty", "missing", "malformed", "valid-plus-suffix", "two-ids-glued")
+        fmts = ("nix",)
+    else:
+        vers = [(case["x"], case["y"], z) for z in range(4)]
+        idvs = ("valid", "empty", "missing", "malformed", "valid-plus-suffix", "two-ids-glued")
+        fmts = ("nix", "other", "missing")
     try:
-        for z in range(4):
-            for idv in ("valid", "empty", "missing", "malformed"):
-                for fmt in ("nix", "other", "missing"):
+        for ver in vers:
+            x, y, z = ver
+            for idv in idvs:
+                for fmt in fmts:
                     for mode in ("r", "a", "w"):
                         env.rm(work)
                         work = env.fresh_path("c11w_")      # fresh inode: a refused open may leak its HDF5 handle
                         shutil.copyfile(base, work)
-                        ver = (x, y, z)
                         tamper(work, ver, idv, fmt)
                         h0 = sha(work)
                         r.evals += 1
